@@ -132,10 +132,60 @@ def run(ctx):
                 mism.append({"arity": n, "shipped": sh, "kw": kw, "model": line, "impl": want})
     ctx.correspondence("Model.Gen3.permute vs the argument order the evaluators actually used (read back from paths)", len(cases), mism)
     no_path_cases(ctx, S, ns)
+    spec_reading_cases(ctx)
     ctx.explanation = ("Theorems for an ARBITRARY tracer: the three evaluators compute the same outcome whenever they have the same spec; folding "
                        "returns a path only if the run-time routes return that path; no spec / non-device callee / failing kernel give no path on "
                        "any route; reversed wrapper = reversed path; every permutation of the keyword pairs gives the signature-ordered argument "
                        "list. Correspondence exhaustive over arities 0-4.")
+
+
+def second_spec():
+    from bloqade.geometry.dialects.grid import Grid
+    from bloqade.shuttle.arch import ArchSpec, Layout
+    traps = Grid.from_positions([100.0, 103.0, 107.0], [50.0, 52.0, 54.0, 56.0])
+    aux = Grid.from_positions([-20.0, -21.5][::-1], [1.0, 2.0])
+    lay = Layout(static_traps={"traps": traps, "aux": aux}, fillable={"traps"}, has_cz={"traps"}, has_local=set(), special_grid={})
+    return ArchSpec(layout=lay, float_constants={"pitch": 0.75}, int_constants={"rows": 4})
+
+
+def spec_reading_cases(ctx):
+    """device kernels that read the spec while being traced, evaluated on every route under two
+    different specs in alternation within one process (a route must use the spec of THIS evaluation)"""
+    SA, SB = tweezer_prog.harness_spec(), second_spec()
+    ksrc = ('@tweezer\ndef kz(p0: float):\n    z = spec.get_static_trap(zone_id="traps")\n'
+            '    action.set_loc(grid.sub_grid(z, [0], [1]))\n    action.turn_on([0], [0])\n'
+            '    action.move(grid.shift(grid.sub_grid(z, [0], [1]), p0 * spec.get_float_constant(constant_id="pitch"), 0.0))\n')
+    kz = kernels.define(ksrc)["kz"]
+    n_ok = 0
+    for rnd in range(2):
+        for S, sname in ((SA, "A"), (SB, "B"), (SA, "A")):
+            for callee, rev in (("f", False), ("r", True)):
+                direct = tc.abstract_path(tc.run_impl(kz, (2.0,), S)[1])
+                if rev:
+                    from props.c02 import _rev_abs
+                    direct = _rev_abs(direct)
+                want = tc.path_text(direct, tc.GridTable())
+                for rname, dec, plain, byparam in ROUTES:
+                    call = f"{callee}(p0=x0)" if byparam else f"{callee}(2.0)"
+                    src = (f"@move{dec}\ndef main({'x0: float' if byparam else ''}):\n    f = schedule.device_fn(kz, [0], [0])\n"
+                           f"    r = schedule.reverse(f)\n    {call}\n")
+                    try:
+                        m = kernels.define(src, S=S, kz=kz)["main"]
+                        st, evs, extra = events.run_events(m, (2.0,) if byparam else (), S, plain=plain)
+                    except Exception as e:
+                        st, evs, extra = "err", [], f"{type(e).__name__}: {e}"
+                    ctx.evaluations += 1
+                    rep = {"kernel": ksrc, "main": src, "spec": sname, "route": rname, "history": "specs A,B,A alternating, twice"}
+                    if st != "ok" or len(evs) != 1 or evs[0][0] != "play":
+                        ctx.fail({"kind": "no-path", "route": rname, "spec_reading_kernel": True}, rep, f"{rname}: spec-reading kernel under spec {sname} did not play a path: {extra}")
+                        continue
+                    got = tc.path_text(tc.abstract_path(evs[0][1].path), tc.GridTable())
+                    if got != want:
+                        ctx.fail({"kind": "wrong-path", "route": rname, "spec_reading_kernel": True, "reversed": rev}, rep,
+                                 f"{rname}: kernel reading the spec, evaluated under spec {sname} after another spec was used, gave {got[:100]} expected {want[:100]}")
+                    else:
+                        n_ok += 1
+    ctx.count("spec-reading kernel x 2 specs alternating x 4 routes x fwd/rev: agree", n_ok)
 
 
 def outcome(st, evs):
